@@ -1,5 +1,6 @@
 """C05 -- the partition log recovers from a crash at any instant."""
 import json
+import os
 from vcommon import Ctx
 from diskcases import eval_disk_cases, Untranslatable
 
@@ -13,7 +14,12 @@ def run(pid, tier, seed, replay):
     nprog = 12 if tier == "quick" else 150
     env = {"VERIF_N": nprog, "VERIF_C05_REPLAYS": 60 if tier == "quick" else 400, "VERIF_C05_CHILD_EVERY": 25 if tier == "quick" else 10}
     if replay:
-        env["VERIF_REPLAY_CASES"] = replay
+        rp = json.load(open(replay))
+        cf = os.path.join(ctx.work, "replay_cases.jsonl")
+        with open(cf, "w") as f:
+            for c in rp.get("cases", []):
+                f.write(json.dumps(c) + "\n")
+        env["VERIF_REPLAY_CASES"] = cf
     lines = ctx.go_driver("server/commitlog", ["commitlog/logdrv_test.go", "commitlog/c05_test.go"], "^TestVerifC05$", env=env, tags="verif", timeout=3000 if tier == "quick" else 20000)
     aborted = [l for l in lines if l.get("k") == "aborted"]
     if aborted:
